@@ -1375,6 +1375,19 @@ package main
 //@   ensures [C20] del_id_kept: in != nil ==> res != nil && res.DelId == int(in.DelId) && len(res.DelSeq) == len(in.DelSeq)
 //@   ensures [C20] absent_stays_absent: in == nil ==> res == nil
 
+// C20 (extension): a relayed note and a delivered message name the same topic, sender and sequence number over gRPC
+// as in JSON.
+//@ func pbServInfoSerialize(info *MsgServerInfo) (r *pbx.ServerMsg_Info)
+//@   requires [C20] info != nil
+//@   modifies inferred
+//@   ensures [C20] fields_kept: r != nil && r.Info != nil && r.Info.Topic == info.Topic && r.Info.FromUserId == info.From && r.Info.Src == info.Src
+//@   ensures [C20] seq_kept: 0 <= info.SeqId && info.SeqId < 2147483648 ==> int(r.Info.SeqId) == info.SeqId
+//@ func pbServDataSerialize(data *MsgServerData) (r *pbx.ServerMsg_Data)
+//@   requires [C20] data != nil
+//@   modifies inferred
+//@   ensures [C20] fields_kept: r != nil && r.Data != nil && r.Data.Topic == data.Topic && r.Data.FromUserId == data.From
+//@   ensures [C20] seq_kept: 0 <= data.SeqId && data.SeqId < 2147483648 ==> int(r.Data.SeqId) == data.SeqId
+
 // C20: a presence notice keeps its actor and its target apart on the wire.
 //@ func pbServPresSerialize(pres *MsgServerPres) (r *pbx.ServerMsg_Pres)
 //@   requires [C20] pres != nil
